@@ -152,5 +152,14 @@ CLAIMED.update({
     },
 })
 
+CLAIMED.update({
+    "C03": {
+        "text": "PARTIAL. A reference interpreter on SYNTAX TREES (Ref/RefSem.v: LET, PRINT with ; and , , IF/THEN/ELSE, GOTO, GOSUB/RETURN, FOR/TO/STEP/NEXT, READ/DATA/RESTORE, DIM and cells of 1-3 dimensions, DEF FN with dynamic parameter scoping, END, RND; no token stream, no cursor, no host turns) written from the documented semantics. Coq theorems (closed under the global context): the yardstick has the documented behaviours the property lists - a FOR body always runs once with limit and step fixed at entry, NEXT forgets inner loops, undefined variables read as 0 / empty string, implicit arrays have indices 0..10, READ consumes DATA in line order (C03_ref_*); and on the expression fragment of C02 the reference evaluator computes the same fold the token walker is proved to compute, so for every tree and EVERY legal spelling model = reference is a theorem (C03_expr_reference_is_fold, C03_expr_model_is_reference). The whole-program claim is decided on every run by execution: programs are generated as syntax trees, rendered to BASIC text for the implementation and to a Coq term for the reference interpreter, which is evaluated INSIDE Coq and must produce exactly the implementation's printed records, error kind and error line; the same sessions are compared with the model turn by turn.",
+        "design_ref": "DESIGN.md 6 C03",
+        "note": NOTE + "PARTIAL: the whole-program simulation C03_simulation (statement and turn level) is validated by the Coq-evaluated reference oracle, not proved. ^ and INPUT are outside the C03 grammar; programs still running after 1500 host calls are not compared.",
+        "technique": "Coq: reference semantics + theorems about it + expression-level model=reference theorem (via C02); whole programs decided by the reference interpreter evaluated in Coq against the implementation + model correspondence",
+    },
+})
+
 _TODO = "check under construction in this session; not claimed until its theorems and correspondence are in place"
-NOT_CLAIMED = {p: _TODO for p in ["C03"]}
+NOT_CLAIMED = {}
